@@ -1,6 +1,7 @@
 package kit
 
 import (
+	stdErrors "errors"
 	"fmt"
 
 	lib "verif/harness/ref"
@@ -19,6 +20,13 @@ type Error interface {
 // ConvertError converts error to Error interface.
 // Added for BC
 func ConvertError(f *fs.File, err error) Error {
+	// An error of an added type comes wrapped ("load added type: ..."): what
+	// is inside knows its file, its position and its code.
+	var de errors.DocumentError
+	if stdErrors.As(err, &de) {
+		return de
+	}
+
 	switch e := err.(type) { //nolint:errorlint // This is okay.
 	case errors.ErrorCode:
 		return sdkError{
